@@ -278,21 +278,34 @@ vocabularies as word-to-column maps) -/
 theorem uncapped_vocabulary_perm {m₁ m₂ : List (κ × Nat × Nat)} (p : m₁.map wordDf ~ m₂.map wordDf) :
     (capVocabulary none m₁).map wordDf ~ (capVocabulary none m₂).map wordDf := p
 
-/- Full statement (`fit_vocabulary_hash_independent`): for document sets `s₁ s₂` that are
-element-wise permutations of each other (`List.Forall₂ (· ~ ·) s₁ s₂`: every per-document hash set
-iterated in another order), `fitVocabulary s₁ … = fitVocabulary s₂ …`.  What is proved below takes
-the intermediate fact as hypothesis — the two raw vocabularies carry the same (word, document
-frequency) pairs; missing is the lemma that `buildVocabulary` counts each word once per document
-whatever the iteration orders (`(buildVocabulary s).map wordDf` is the word count of `s.flatten`). -/
-/-- `CountVectorizer::fit` with `max_features`: frequency window, stop words and cut together -/
-theorem fit_vocabulary_hash_independent_partial (s₁ s₂ : List (List κ)) (minAbs maxAbs : Nat)
-    (stop : List κ) (cap : Nat)
-    (h : (buildVocabulary s₁).map wordDf ~ (buildVocabulary s₂).map wordDf) :
+/-- **The raw vocabulary does not depend on the iteration order of any per-document hash set.**
+For all documents and all iteration orders of every per-document `HashSet` (the two lists of
+sets are element-wise permutations of each other), the vocabularies built by
+`read_document_into_vocabulary` carry the same (word, document frequency) pairs — they differ
+only in the order of the entries and in the insertion indexes. -/
+theorem build_vocabulary_hash_independent {s₁ s₂ : List (List κ)} (h : List.Forall₂ (· ~ ·) s₁ s₂) :
+    (buildVocabulary s₁).map wordDf ~ (buildVocabulary s₂).map wordDf :=
+  buildVocabulary_wordDf_perm h
+
+/-- **`CountVectorizer::fit` with `max_features`**: frequency window, stop words and cut together
+return the same (word, document frequency) list whatever order every hash set on the way was
+iterated in. -/
+theorem fit_vocabulary_hash_independent {s₁ s₂ : List (List κ)} (h : List.Forall₂ (· ~ ·) s₁ s₂)
+    (minAbs maxAbs : Nat) (stop : List κ) (cap : Nat) :
     fitVocabulary s₁ minAbs maxAbs stop (some cap) = fitVocabulary s₂ minAbs maxAbs stop (some cap) := by
   unfold fitVocabulary
   apply cap_selection_ignores_insertion_index
   rw [dfFilter_wordDf, dfFilter_wordDf]
-  exact h.filter _
+  exact (build_vocabulary_hash_independent h).filter _
+
+/-- without a cap: the same word → frequency map (as a multiset; the column order is unspecified) -/
+theorem fit_vocabulary_uncapped_hash_independent {s₁ s₂ : List (List κ)}
+    (h : List.Forall₂ (· ~ ·) s₁ s₂) (minAbs maxAbs : Nat) (stop : List κ) :
+    fitVocabulary s₁ minAbs maxAbs stop none ~ fitVocabulary s₂ minAbs maxAbs stop none := by
+  unfold fitVocabulary capVocabulary
+  simp only
+  rw [dfFilter_wordDf, dfFilter_wordDf]
+  exact (build_vocabulary_hash_independent h).filter _
 
 end Vocabulary
 
@@ -304,6 +317,9 @@ example : buildVocabulary [[(1 : Nat), 2], [2]] = [(1, 0, 1), (2, 1, 2)] ∧
   refine ⟨by decide, by decide, by decide⟩
 
 example : [((1 : Nat), 0, 1), (2, 1, 1)] ~ [((2 : Nat), 1, 1), (1, 0, 1)] := by decide
+
+example : List.Forall₂ (· ~ ·) [[(1 : Nat), 2], [2]] [[2, 1], [2]] :=
+  .cons (by decide) (.cons (by decide) .nil)
 
 /-- a cut whose tie-break is the insertion index (the order `(Reverse(freq), x, word)`) is *not*
 invariant: one document with two new words, its hash set iterated both ways, `max_features = 1`
